@@ -1,6 +1,8 @@
 """C16 - generators deliver the structure their parameters promise (bounded grids x seeds; exhaustive index decodings)."""
 import copy
+import collections
 import itertools
+import math
 from math import comb
 
 import networkx as nx
@@ -24,6 +26,7 @@ RULE = (
     "complete-hypergraph counts; configuration-type models never exceed prescribed degrees; Chung-Lu/DCSBM edges within "
     "prescribed IDs; generated complexes downward closed without duplicates; flag complexes = exactly the cliques up to "
     "max_order. Exhaustive part: the three index-to-edge decodings are compared with itertools for all n <= 7, m <= n and "
+    "Flag complexes are generated again from the same Graph object after one edge was toggled; with multi-edges p=1 must give every tuple of distinct nodes; every order with probability 1 must hold all its cliques. "
     "all block-size triples <= 4. non-trivial = the generated network has >= 1 edge and the parameter tuple contains a "
     "boundary value (probability 0 or 1, n < m, an empty block)"
 )
@@ -169,6 +172,12 @@ def run_case(case, ctx):
             C(H.num_edges == 0, "p=0-has-edges")
         if pr == 1 and not me:
             C(H.num_edges == comb(n, m), "p=1-not-all-edges", "%d vs %d" % (H.num_edges, comb(n, m)))
+        if pr == 1 and me:
+            # with multi-edges every m-tuple of distinct nodes is an edge of its own: n! / (n - m)! of them, each node set m! times
+            want = math.perm(n, m) if n >= m else 0
+            cnt = collections.Counter(frozenset(x) for x in H.edges.members())
+            C(H.num_edges == want and (not cnt or set(cnt.values()) == {math.factorial(m)}) and len(cnt) == comb(n, m),
+              "p=1-multiedges-not-all-tuples", lambda: "%d edges vs %d; %d distinct sets vs %d" % (H.num_edges, want, len(cnt), comb(n, m)))
         boundary = pr in (0, 1) or n < m
     elif g == "uniform_erdos_renyi_hypergraph-degree":
         try:
